@@ -8,11 +8,27 @@ Proved (every cluster size, file size, position and length):
   buffer returns for the same call and moves the position alike (`c02_read_refines`);
 * writing to a cluster of one chain cannot touch another file: distinct clusters
   occupy disjoint byte ranges (C08) and chains are disjoint (C04 invariant).
-The write / truncate paths are decided by differential execution against the
-byte-buffer reference (suite `io`); `seekCursor` itself is compared with the real
-cursor fields for every offset class.
+* `write` — read-modify-write of the cluster the cursor is in, then cluster-sized
+  chunks, a shorter last chunk leaving the rest of its cluster alone — replaces
+  exactly the bytes `[pos, pos + n)` of the concatenated clusters, so the content
+  afterwards is the byte buffer's after the same write, whatever the newly linked
+  clusters held before (`c02_write_replaces_range`, `c02_write_refines`);
+  `truncate` up = zero-extension, down = prefix (`c02_truncate_*`).
+  (How many clusters are linked is the FAT side: `Model.Fs.writeChain`, C04.)
+* at the filesystem level (`Model.Fs` + the data area as a function from cluster to bytes): in every
+  state with the invariant and well-shaped files — every reachable state — a write through a handle
+  makes the file read back as the byte buffer does (`c02_fs_write_reads_back`: the chain `writeChain`
+  produced has room, its old part still holds the old content, new clusters may hold anything) and
+  leaves the content of every other file and directory as it was (`c02_fs_write_frame`: chains are
+  disjoint).
+Mode gating, several handles and whole call sequences are decided by differential
+execution against the byte-buffer reference (suite `io`); `seekCursor` and
+`writeClusters` are compared with the real cursor fields / the real clusters on
+the device before and after a real write, for every offset class.
 -/
 import PyFatModel.Proofs.FatIO
+import PyFatModel.Proofs.FatIOWrite
+import PyFatModel.Proofs.FsData
 import PyFatModel.Proofs.Geom
 
 open Model.FatIO
@@ -38,6 +54,57 @@ theorem c02_read_loop (bpc : Nat) (hb : 0 < bpc) (cs : List (List Nat)) (off n :
     (hu : Proofs.FatIO.Uniform bpc cs) (hoff : off ≤ bpc) (hn : 0 < n) (hfit : off + n ≤ cs.length * bpc) :
     readLoop bpc cs off n = (cs.flatten.drop off).take n :=
   Proofs.FatIO.readLoop_eq_slice bpc hb cs off n hu hoff hn hfit
+
+/-- the write touches exactly the bytes `[pos, pos + |bs|)` of the file's clusters -/
+theorem c02_write_replaces_range (bpc : Nat) (hb : 0 < bpc) (cs : List (List Nat)) (hu : Proofs.FatIO.Uniform bpc cs)
+    (filesize pos : Nat) (bs : List Nat) (hpos : pos ≤ filesize) (hsz : filesize ≤ cs.length * bpc)
+    (hroom : pos + bs.length ≤ cs.length * bpc) :
+    (writeClusters bpc cs filesize pos bs).flatten = cs.flatten.take pos ++ bs ++ cs.flatten.drop (pos + bs.length) :=
+  Proofs.FatIOWrite.writeClusters_flat bpc hb cs hu filesize pos bs hpos hsz hroom
+
+/-- `write` refines the byte buffer (every cluster size, file size, position inside the file, data length;
+    `cs` = the chain after extension, its new clusters holding arbitrary bytes) -/
+theorem c02_write_refines (bpc : Nat) (hb : 0 < bpc) (cs : List (List Nat)) (hu : Proofs.FatIO.Uniform bpc cs)
+    (filesize pos : Nat) (bs : List Nat) (hpos : pos ≤ filesize) (hsz : filesize ≤ cs.length * bpc)
+    (hroom : pos + bs.length ≤ cs.length * bpc) :
+    (writeClusters bpc cs filesize pos bs).flatten.take (max filesize (pos + bs.length)) =
+      ((⟨cs.flatten.take filesize, pos⟩ : Buf).write bs).data :=
+  Proofs.FatIOWrite.write_refines bpc hb cs hu filesize pos bs hpos hsz hroom
+
+theorem c02_truncate_grow_refines (bpc : Nat) (hb : 0 < bpc) (cs : List (List Nat)) (hu : Proofs.FatIO.Uniform bpc cs)
+    (filesize m : Nat) (hm : filesize ≤ m) (hsz : filesize ≤ cs.length * bpc) (hroom : m ≤ cs.length * bpc) :
+    (writeClusters bpc cs filesize filesize (List.replicate (m - filesize) 0)).flatten.take m =
+      ((⟨cs.flatten.take filesize, 0⟩ : Buf).truncate m).data :=
+  Proofs.FatIOWrite.truncate_grow_refines bpc hb cs hu filesize m hm hsz hroom
+
+theorem c02_truncate_shrink_refines (cs : List (List Nat)) (filesize m : Nat) (hm : m ≤ filesize)
+    (hsz : filesize ≤ cs.flatten.length) :
+    cs.flatten.take m = ((⟨cs.flatten.take filesize, 0⟩ : Buf).truncate m).data :=
+  Proofs.FatIOWrite.truncate_shrink_refines cs filesize m hm hsz
+
+example : writeClusters 4 [[1, 2, 3, 4], [5, 6, 7, 8], [90, 91, 92, 93]] 8 8 [20, 21] =
+    [[1, 2, 3, 4], [5, 6, 7, 8], [20, 21, 92, 93]] := by decide
+example : writeClusters 4 [[1, 2, 3, 4], [5, 6, 7, 8], [90, 91, 92, 93]] 7 3 [20, 21, 22, 23, 24, 25, 26] =
+    [[1, 2, 3, 20], [21, 22, 23, 24], [25, 26, 92, 93]] := by decide
+
+/-- **write through a handle, every reachable state of the filesystem model** -/
+theorem c02_fs_write_reads_back (v : Model.Fs.Vol) (count : Nat) (hv : Proofs.FsInv.VolOK v count) (s : Model.Fs.St)
+    (h : Proofs.FsInv.Inv v count s) (f : Model.Fs.Node) (hf : f ∈ s.nodes) (hshape : Proofs.FsShape.Shape v.bpc f)
+    (data : Model.Fs.Data) (pos : Nat) (bs : List Nat) (hbs : 0 < bs.length)
+    (fat' : List Nat) (hint' : Nat) (c' : List Nat)
+    (hw : Model.Fs.writeChain v s.fat s.hint f.chain f.size pos bs.length = .ok (fat', hint', c'))
+    (hnd : c'.Nodup) (hu : ∀ c ∈ c', (data c).length = v.bpc) :
+    Model.Fs.contentOf (Model.Fs.writeData v.bpc data c' f.size pos bs)
+        { f with chain := c', size := max f.size (min pos f.size + bs.length) } =
+      ((⟨Model.Fs.contentOf data f, min pos f.size⟩ : Buf).write bs).data :=
+  Proofs.FsData.fs_write_content hv h f hf hshape data pos bs hbs hw hnd hu
+
+/-- **frame, every reachable state**: no other entry's content changes -/
+theorem c02_fs_write_frame (v : Model.Fs.Vol) (count : Nat) (s' : Model.Fs.St) (h : Proofs.FsInv.Inv v count s')
+    (data : Model.Fs.Data) (f' g : Model.Fs.Node) (hf : f' ∈ s'.nodes) (hg : g ∈ s'.nodes) (hne : g ≠ f')
+    (size pos : Nat) (bs : List Nat) :
+    Model.Fs.contentOf (Model.Fs.writeData v.bpc data f'.chain size pos bs) g = Model.Fs.contentOf data g :=
+  Proofs.FsData.fs_write_frame h data f' g hf hg hne size pos bs
 
 /-- frame: two different clusters never overlap on the device -/
 theorem c02_frame_clusters (b : Model.Geom.Bpb) (v : b.Valid) (c d : Nat) (hc : 2 ≤ c) (hcd : c < d) :
